@@ -400,8 +400,12 @@ def judge(case, obs):
         while qi < len(obs["queries"]) and not (obs["queries"][qi][4] == r[2] and obs["queries"][qi][5] == r[3]):
             qi += 1
         if qi == len(obs["queries"]):
-            v("C12", "search_log_row_not_simulated", f"{method}: search log row {r} matches no simulation that was run")
+            v("C12", "search_log_row_not_simulated", f"{method}: search log row {r} matches no simulation that was run (every row must be the "
+              f"result of its own simulation, in the order the simulations were run)")
+            v("C05", "search_log_row_not_simulated", f"{method}: search log row {r} is not the result of a simulation of its own: the excess the "
+              f"selection relies on was not computed for that candidate")
             break
+        qi += 1  # one row, one simulation
     # ---- C20: with a system flow the per-borehole flow seen by every GHE is V*rho/(1000 nbh)
     if case.get("flow") == "system":
         rho = _LAST["m"]._fluid.rho
